@@ -5,6 +5,7 @@ stay quiet (exit 0); a VIOLATION on a refactoring that really preserves behaviou
 the machinery.
 
   tools/refac_eval.py /tmp/refac_A/seed [--all]
+  tools/refac_eval.py /verif/refactorings        (the 20 stored ones: <scope>_refactor_<k>.diff)
 """
 import glob, json, os, shutil, subprocess, sys, tempfile
 
@@ -32,7 +33,7 @@ def main():
     src = sys.argv[1]
     run_all = "--all" in sys.argv
     results = []
-    for diff in sorted(glob.glob(os.path.join(src, "refactor_*.diff"))):
+    for diff in sorted(glob.glob(os.path.join(src, "*refactor_*.diff"))):
         wt = tempfile.mkdtemp(prefix="refchk_", dir="/tmp")
         os.rmdir(wt)
         sh("git -C /repo worktree add -q --detach %s HEAD" % wt)
@@ -45,7 +46,7 @@ def main():
                 rec["error"] = ra.stdout[-300:]
                 results.append(rec)
                 continue
-            rt = sh("/tmp/seedtools/run_tests.py %s" % wt)
+            rt = sh("%s %s" % (os.path.join(HERE, "tools", "run_tests.py"), wt))
             rec["tests"] = rt.stdout.strip().splitlines()[0] if rt.stdout.strip() else ""
             files = [l[6:] for l in open(diff).read().splitlines() if l.startswith("+++ b/")]
             rec["files"] = files
@@ -78,7 +79,7 @@ def main():
         for c in rec.get("alarms", []):
             print("   ", c, rec["checks"][c]["signatures"], rec["checks"][c].get("tail", "")[-200:])
         sys.stdout.flush()
-    json.dump(results, open(os.path.join(src, "refac_results.json"), "w"), indent=1)
+    json.dump(results, open(os.path.join(src, "refac_results.json"), "w"), indent=1, sort_keys=True)
 
 
 if __name__ == "__main__":
